@@ -37,35 +37,7 @@ func TestMain(m *testing.M) { vk.Main(m) }
 // panics in the same function with the same message is hidden (for "reflect: index out of range" the key
 // additionally says whether the cell had a negative/extreme operand, so a lost upper-bound check still shows).
 var knownOpen = map[string]bool{
-	"arrayOperator@compiler.go: reflect: call of unknown method on wrong-kind Value":                        true,
-	"evalAccessIndex@compiler.go: hash of unhashable type T":                                                true,
-	"evalAccessIndex@compiler.go: invalid memory address or nil pointer dereference":                        true,
-	"evalAccessIndex@compiler.go: reflect.Value.MapIndex: value of type T is not assignable to type U":      true,
-	"evalAccessIndex@compiler.go: reflect: index out of range [negative or extreme operand]":                true,
-	"evalAccessIndex@compiler.go: reflect: index out of range [random program]":                             true,
-	"evalCallExpression@compiler.go: reflect.Value.Call: call of nil function":                              true,
-	"evalCallExpression@compiler.go: reflect: call of reflect.Value.MethodByName on the zero reflect.Value": true,
-	"evalCallExpression@compiler.go: value method called using nil pointer":                                 true,
-	"evalUpdateIndex@compiler.go: assignment to entry in nil map":                                           true,
-	"evalUpdateIndex@compiler.go: hash of unhashable type T":                                                true,
-	"evalUpdateIndex@compiler.go: reflect.Value.SetMapIndex: value of type T is not assignable to type U":   true,
-	"evalUpdateIndex@compiler.go: reflect: call of reflect.Value.Set on the zero reflect.Value":             true,
-	"evalUpdateIndex@compiler.go: reflect: call of reflect.Value.SetMapIndex on the zero reflect.Value":     true,
-	"evalUpdateIndex@compiler.go: reflect: call of reflect.Value.Type on the zero reflect.Value":            true,
-	"evalUpdateIndex@compiler.go: reflect: index out of range [negative or extreme operand]":                true,
-	"evalUpdateIndex@compiler.go: reflect: index out of range [random program]":                             true,
-	"evalUpdateIndex@compiler.go: reflect: reflect.Value.Set using unaddressable value":                     true,
-	"evalUserFunction@compiler.go: index out of range [N] with length N":                                    true,
-	"helpers/content.ContentFor@for.go: invalid memory address or nil pointer dereference":                  true,
-	"helpers/content.ContentOf@of.go: invalid memory address or nil pointer dereference":                    true,
-	"helpers/escapes.HTMLEscape@html.go: invalid memory address or nil pointer dereference":                 true,
-	"helpers/meta.Len@len.go: reflect: call of reflect.Value.Len on the zero reflect.Value":                 true,
-	"helpers/meta.Len@len.go: reflect: call of reflect.Value.Len on wrong-kind Value":                       true,
-	"helpers/paths.PathFor@path_for.go: reflect: call of reflect.Value.Type on the zero reflect.Value":      true,
-	"helpers/text.Truncate@truncate.go: assignment to entry in nil map":                                     true,
-	"helpers/text.Truncate@truncate.go: interface conversion: interface is T, not U":                        true,
-	"write@compiler.go: invalid memory address or nil pointer dereference":                                  true,
-	"write@compiler.go: value method called using nil pointer":                                              true,
+	// (empty: the 27 root causes found when this check was first run were fixed in /repo)
 }
 
 // ---- the value pool -----------------------------------------------------------------------------------
@@ -696,13 +668,8 @@ func matrixIndex(r *vk.Run, b *builder) {
 	for _, ci := range [][2]string{{"ints", "int"}, {"anys", "int0"}, {"arr", "int"}, {"parr", "int"}, {"msi", "str"}, {"msa", "str"}, {"mis", "int"}, {"maa", "str"}, {"nilmap", "str"}, {"strs", "int"}, {"structs", "int0"}, {"pstructs", "int0"}, {"lit_arr", "int"}, {"lit_hash", "str"}, {"str", "int"}} {
 		c, i := P(ci[0]), P(ci[1])
 		for _, v := range pool {
-			if v == c && c.Mk != nil {
-				// c[i] = c builds a slice/map that contains itself; emitting it recurses without bound in
-				// compiler.write and the process dies of a fatal stack overflow, which no harness can survive
-				// (reported separately; steered away by construction)
-				r.Exclude("self-containing-collection")
-				continue
-			}
+			// c[i] = c builds a collection that contains itself; emitting it used to overflow the stack
+			// (fixed in /repo: the nesting depth of printed collections is bounded), so it is generated too
 			b.add(cell{mkCase("index", fmt.Sprintf("<%% %s[%s] = %s %%><%%= %s[%s] %%>", c.spell(), i.spell(), v.spell(), c.spell(), i.spell()), c, i, v), true, "index/write-any"})
 		}
 	}
